@@ -139,7 +139,7 @@ func (a *broadcastHubActor[T]) verifState() string {
 }
 
 func (a *balanceHubActor[T]) verifState() string {
-	return fmt.Sprintf("dm=%s,pd=%d,sl=%s,nx=%d", fmtInts(a.demand), a.pending, fmtLive(a.slots), a.nextSlot)
+	return fmt.Sprintf("dm=%s,pd=%d,sl=%s,nx=%d,bf=%s,ud=%s", fmtInts(a.demand), a.pending, fmtLive(a.slots), a.nextSlot, verifQueueLen(a, "buf"), verifBool(a, "upstreamDone"))
 }
 
 func (a *partitionHubActor[T]) verifState() string {
